@@ -223,7 +223,14 @@ func init() {
 						}
 					} else {
 						w0.idp.addUser(uname, u)
+						w0.idp.mutateClaims = nil
+						if vpB(in, "big") {
+							// a session the cookie store has to split (no cookie then carries the base name)
+							pad := vpRandPad(1800)
+							w0.idp.mutateClaims = func(kind string, cl map[string]interface{}) { cl["pad"] = pad }
+						}
 						cb, err := w0.login(j, uname, "")
+						w0.idp.mutateClaims = nil
 						if err != nil || w0.sessionCookieEffect(cb) != "set" {
 							env.emit(vpOut{ID: c.ID, Err: fmt.Sprintf("twin login failed: %v %d", err, cb.Status)})
 							continue
